@@ -62,5 +62,11 @@ def run(ctx):
                 "primitives only from gc / try_remove_node / level views, gated by reorder_gc_prepared / "
                 "allow_node_removal; level_swap uses the unchecked insertions only.")
     ewho.run(ctx, F)
+    ctx.explain("E-LIN.mint: inventory of the places in the two manager crates that build an owned Edge value out of a raw id / "
+                "pointer (invisible to the drop-based rule): the copying sites (clone_edge*, DynamicTerminalManager::get_edge, "
+                "the dynamic terminal iterator) have a reference-count increment or a fresh count on every path to the "
+                "creation; the remaining sites are the reviewed raw constructors and ownership transfers; a new site is reported.")
+    n = elin.check_mint(ctx, F)
+    ctx.floor("E-LIN.mint", "edge-creating functions inventoried", n, 22)
     ctx.not_decided = ("exactness of counts over histories; the unsafe internals of the managers; "
                        "capacity restoration after gc")
